@@ -28,7 +28,8 @@ def run_plain(m: Any, inp: Tuple[Any, ...], backward: bool) -> Tuple[Any, Dict[s
     grads: Dict[str, Any] = {}
     if backward:
         loss = sum((o if o.dim() == 0 else (o * torch.linspace(-1, 1, o.numel(), dtype=o.dtype).reshape(o.shape)).sum()) for o in outs)
-        loss.backward()
+        if loss.requires_grad:  # (nothing to differentiate when every parameter is frozen and the input is integer)
+            loss.backward()
         grads = {str(j): (p.grad.clone() if p.grad is not None else None) for j, p in enumerate(m.parameters())}
         if args[0].is_floating_point():
             grads["<input>"] = None if args[0].grad is None else args[0].grad.clone()
@@ -144,8 +145,13 @@ def track(prog: Dict[str, Any], seed: int, backward: bool = True, calls: Optiona
         if backward:
             fl = [o for o in outs if isinstance(o, torch.Tensor)]
             loss = sum((o if o.dim() == 0 else (o * torch.linspace(-1, 1, o.numel(), dtype=o.dtype).reshape(o.shape)).sum()) for o in fl)
-            loss.backward()
-    return {"src": src, "m": m, "t": t, "graph": graph, "captured": captured, "y_plain": y_plain, "g_plain": g_plain,
+            if loss.requires_grad:
+                loss.backward()
+    flags = None
+    if not tier_a:
+        flags = {"params": [(p.requires_grad, q.requires_grad) for p, q in zip(plain.parameters(), t.parameters())],
+                 "buffers": [b.requires_grad for b in t.buffers()]}
+    return {"flags": flags, "src": src, "m": m, "t": t, "graph": graph, "captured": captured, "y_plain": y_plain, "g_plain": g_plain,
             "y_t": y_t, "g_t": g_t, "rec": rec, "history": history}
 
 
